@@ -59,6 +59,8 @@ def _arrays() -> typing.List[Entry]:
         ("A_f64v", "float64[<=2] a\n@sealed\n", "variable array of float64"),
         ("A_two", "uint8[<=2] a\nint8[<=2] b\n@sealed\n", "two variable arrays (offset depends on first length)"),
         ("A_lt", "uint8[<3] a\n@sealed\n", "exclusive capacity bound"),
+        ("A_u24v", "uint24[<=2] a\nuint8 z\n@sealed\n", "variable array of whole-byte but non-standard-width elements (stored in a wider type: no bulk copy)"),
+        ("A_i40f", "saturated int40[2] a\n@sealed\n", "fixed array of 40-bit signed elements (whole bytes, stored in 64 bits)"),
     ]
 
 
